@@ -1,5 +1,6 @@
 import re
 from copy import deepcopy
+from fractions import Fraction
 
 from .base import (
     BaseReader, BaseWriter, CaptionSet, CaptionList, Caption, CaptionNode,
@@ -67,7 +68,9 @@ class MicroDVDReader(BaseReader):
         return caption_set
 
     def _framestomicro(self, framenum, fps=25.0):
-        return int(framenum / fps * (10 ** 6))
+        # exact arithmetic on the decimal value of fps: the float expression
+        # framenum / fps * 10**6 truncates e.g. frame 201 at 25 fps to 8039999
+        return int(Fraction(framenum) * (10 ** 6) / Fraction(str(fps)))
 
 
 class MicroDVDWriter(BaseWriter):
